@@ -337,8 +337,23 @@ def gen_lambda(r, size):
         form = r.choice(["%s(%s, %s)" % (op, a1, a2), "(%s) ! %s, %s" % (op, a1, a2) if op in ("-", "+", "*") else "%s ! %s, %s" % (op, a1, a2),
                          "%s(%s, _)(%s)" % (op, a1, a2), "%s(%s)" % (op, a1) if op == "-" else "%s(%s, %s, 1)" % (op, a1, a2)])
         body = "(chp := (try %s catch _e -> \"raised\"); print(chp); %s)" % (form, body)
+    # a local declaration that shadows an outer variable and reads the outer one in its own right-hand side, in
+    # every shape of right-hand side (the outer value is the one at freeze time, also after it is reassigned);
+    # o7l / o8 are outer names the generator itself never mentions
+    shadow_decl = False
+    if static is None and r.random() < 0.15:
+        shadow_decl = True
+        decl, nm = r.choice([
+            ("o7l := map(o7l, \\y_ -> y_ + 1)", "o7l"), ("o7l := map(o7l, \\y_ -> y_ + len(o7l))", "o7l"),
+            ("o7l := filter(o7l ++ [5], \\y_ -> y_ < 9)", "o7l"), ("o7l := fold(o7l, \\a_, b_ -> a_ + b_ + 1)", "o7l"),
+            ("o7l := o7l ++ [1]", "o7l"), ("o7l := (o7l map (+ 1))", "o7l"), ("o7l := [o7l, (\\z_ -> z_ ++ o7l)([7])]", "o7l"),
+            ("o8 := o8 + 1", "o8"), ("o8 := max(o8, 5)", "o8"), ("o8 := (\\z_ -> z_ + o8)(1)", "o8"),
+            ("o8 := hf2_(o8, \\z_ -> z_ * 2)", "o8"), ("o8 := sum(map([o8, 2], \\z_ -> z_ + o8))", "o8")])
+        if "hf2_" in decl:
+            decl = "hf2_ := \\v_, f_ -> f_(v_) + 1; " + decl
+        body = "(%s; print(%s); %s)" % (decl, nm, body)
     plant = None
-    if static is None and r.random() < 0.12:
+    if static is None and not shadow_decl and r.random() < 0.12:
         # o8/o9 are outer variables the generator never mentions, so they cannot be shadowed locally
         plant = r.choice(["unbound", "outer-assign", "import", "underscore", "outer-opassign", "unbound-call",
                           "outer-index-assign", "outer-index-opassign", "outer-key-assign", "unbound-index-assign"])
@@ -390,6 +405,10 @@ def shard(ctx, si, n):
                 re_stmts += USER_OPS_REASSIGN
             if "hf(" in body:
                 re_stmts += FN_REASSIGN
+            if "o7l :=" in body:
+                re_stmts.append("o7l = [9, 9]")
+            if "o8 :=" in body:
+                re_stmts.append("o8 = 50")
             for sw in BUILTIN_SWAPS:
                 a, b = sw[5:].split(", ")
                 if (" %s " % a in body or " %s " % b in body or a + "(" in body or b + "(" in body) and r.random() < 0.6:
